@@ -47,7 +47,7 @@ var directed = []string{
 	"a +\nb", "a\n+ b", "f(\na,\nb\n)", "a.\nb", "a\n.b", "x := [\n1, 2\n]", "if a\n{\n}\nelse\n{\n}",
 	"a := 1\nb := 2\n\n# trailing", "a := 1\n/* trailing */",
 	// shapes found by the generated search (each one failed on the unrepaired tree)
-	"a; -b", "a; +b * c", "f(0);\n-(0 + l[0]) + 0", "a := -(b);\n(0 + 0) * 2", "a := f(1);\n(b + c) * d", "if x {\n    a; -b\n}",
+	"{{return\n}}", "[return\n]", "f(return\n, 1)", "return # c\n+ 1", "x := [return\n, 1, 2, 3, 4, 5]", "00#\n#", "a # \n# b\n# \n+ c", "return\n#", "a\nreturn\n# done\n", "a; -b", "a; +b * c", "f(0);\n-(0 + l[0]) + 0", "a := -(b);\n(0 + 0) * 2", "a := f(1);\n(b + c) * d", "if x {\n    a; -b\n}",
 	"func f() {\n    return\n    -2\n}", "func f() {\n    return\n    +7 - 1\n    g()\n}", "(return) + 1", "(return 1) and x",
 	"x := [1 # c\n, -3, 4, 5, 6]", "x := [a # c\n, (b + c) * 2, 4, 5, 6]", "x := {1 : 2 # c\n, -3 : 4, 5 : 6}", "x := {0 : s, 0 : 0 + #\n 0, 0 : not true}",
 	"if true {\n    a\n}", "if true {\n    a\n} elif true {\n    b\n}", "if true {\n} else {\n    b\n}",
